@@ -24,6 +24,19 @@ OVERWRITING = {'operator[]', 'insert_or_assign'}
 KEEPING = {'emplace', 'insert', 'try_emplace'}
 
 
+def pop_invalidates(fx, res, r, pop=None):
+    """shared with C08: the partition bits of popped assertions are cleared on every successful pop while partitions are tracked"""
+    pop = pop or fx.func('opensmt::MainSolver::pop')
+    exits, eng = must_call(pop, {'inval': lambda n: is_call(n, 'invalidatePartitions')},
+                           {'track': lambda a: is_call(see_through(a), 'trackPartitions')})
+    bad = [nd for k, nd, st in exits if k == 'return' and 'track=T' in st and 'inval' not in st and str(see_through(nd.get('e')).get('v')) != 'False']
+    if bad:
+        res.bad(r, 'pop-no-invalidate', fx.loc(pop), 'MainSolver::pop can succeed while tracking partitions without invalidating the popped partitions: their bits stay in the term masks, '
+                'a later interpolation counts an A-local symbol as shared (B is the complement of the A-mask) and cores name popped assertions')
+    else:
+        res.ok(r, 'MainSolver::pop: invalidatePartitions on every successful tracked path')
+
+
 def run(src, tier, seed):
     fx = Facts(src)
     res = Result('C06')
@@ -225,13 +238,7 @@ def run(src, tier, seed):
         res.ok(r, 'minimize: hidden terms from the current assertion view')
     else:
         res.bad(r, 'minimize-hidden', fx.loc(mi), 'minimize no longer takes the unnamed background from the current assertion stack')
-    exits, eng = must_call(pop, {'inval': lambda n: is_call(n, 'invalidatePartitions')},
-                           {'track': lambda a: is_call(see_through(a), 'trackPartitions')})
-    bad = [nd for k, nd, st in exits if k == 'return' and 'track=T' in st and 'inval' not in st and str(see_through(nd.get('e')).get('v')) != 'False']
-    if bad:
-        res.bad(r, 'pop-no-invalidate', fx.loc(pop), 'MainSolver::pop can succeed while tracking partitions without invalidating the popped partitions')
-    else:
-        res.ok(r, 'MainSolver::pop: invalidatePartitions on every successful tracked path')
+    pop_invalidates(fx, res, r, pop)
     # ---- R7 the recorded assertion is the term the name was given to
     r = res.rule('named-term-is-recorded-term', 'MainSolver::insertFormula records (frames.add / assignTopLevelPartitionIndex) the formula it received: names are attached to that PTRef by '
                  'tryAddNamedAssertion, and the core builder recognises a named assertion by looking the recorded term up in the name registry', floor=1)
